@@ -128,6 +128,17 @@ def _herm(R, lo=1, hi=5):
     return HERM(n, R.randrange(10 ** 6), lam)
 
 
+def _herm_struct(R, lo=2, hi=5):
+    """Hermitian input that is already (almost) reduced: tridiagonal or diagonal plus Hermitian
+    noise at or far below rounding level (1e-13 ... 1e-22), i.e. the residue of an earlier
+    transform - entries a clean-up step may be tempted to flush in the caller's array."""
+    n = R.randint(lo, hi)
+    base = {"gen": "tridiag_herm", "n": n, "seed": R.randrange(10 ** 6)} if R.random() < 0.7 else \
+        {"gen": "herm", "n": n, "seed": R.randrange(10 ** 6), "lam": [round(R.uniform(-2, 2), 3) for _ in range(n)]}
+    return {"gen": "add", "a": base, "b": {"gen": "scale", "c": R.choice([1e-13, 1e-16, 1e-19, 1e-22]),
+                                           "of": HERM(n, R.randrange(10 ** 6))}}
+
+
 def _real(R, m, n):
     return {"gen": "real", "m": m, "n": n, "seed": R.randrange(10 ** 6)}
 
@@ -171,9 +182,20 @@ def _catalogue():
     F("utils.normQ", lambda R: ([_anymat(R), R.choice([None, "d"])], {}))
     F("utils.ishermitian", lambda R: ([R.choice([_herm(R), _sq(R)])], {}))
     F("utils.det", lambda R: ([_sq(R, 1, 4), R.choice(["Dieudonne", "Dieudonné"])], {}))
-    F("utils.det", lambda R: ([_herm(R, 1, 4), "Moore"], {}))
+    F("utils.det", lambda R: ([R.choice([_herm(R, 1, 4), _herm_struct(R, 2, 4)]), "Moore"], {}))
     F("utils.rank", lambda R: ([_anymat(R)], {}), 2)
-    F("utils.power_iteration", lambda R: ([R.choice([_herm(R), _sq(R)])],
+    def _pi_arg(R):
+        x = R.random()
+        if x < 0.35:
+            return _herm(R)
+        if x < 0.6:
+            return _sq(R)
+        n = R.randint(1, 5)
+        if x < 0.8:
+            return SP(_herm(R))
+        # integer-valued Hermitian matrix (stores genuine zeros when kept with explicit zeros)
+        return SP({"gen": "hermpart", "of": {"gen": "int", "m": n, "n": n, "seed": R.randrange(10 ** 6)}})
+    F("utils.power_iteration", lambda R: ([_pi_arg(R)],
                                           {"max_iterations": R.choice([1, 5, 40]), "return_eigenvalue": R.random() < 0.5}), 2)
     F("utils.quaternion_to_complex_adjoint", lambda R: ([_sq(R)], {}))
     F("utils.power_iteration_nonhermitian",
@@ -247,10 +269,10 @@ def _catalogue():
     F("decomp.quaternion_modulus", lambda R: ([_anymat(R)], {}))
     F("decomp.quaternion_triu", lambda R: ([_anymat(R)], {"k": R.randint(-1, 1)}))
     F("decomp.quaternion_tril", lambda R: ([_anymat(R)], {"k": R.randint(-1, 1)}))
-    F("decomp.quaternion_eigendecomposition", lambda R: ([_herm(R)], {}), 2)
-    F("decomp.quaternion_eigenvalues", lambda R: ([_herm(R)], {}))
-    F("decomp.quaternion_eigenvectors", lambda R: ([_herm(R)], {}))
-    F("decomp.tridiagonalize", lambda R: ([_herm(R, 2, 5)], {}), 2)
+    F("decomp.quaternion_eigendecomposition", lambda R: ([R.choice([_herm(R), _herm(R), _herm_struct(R)])], {}), 2)
+    F("decomp.quaternion_eigenvalues", lambda R: ([R.choice([_herm(R), _herm(R), _herm_struct(R)])], {}))
+    F("decomp.quaternion_eigenvectors", lambda R: ([R.choice([_herm(R), _herm(R), _herm_struct(R)])], {}))
+    F("decomp.tridiagonalize", lambda R: ([R.choice([_herm(R, 2, 5), _herm_struct(R)])], {}), 2)
     F("decomp.hessenberg.hessenbergize", lambda R: ([_sq(R)], {}), 2)
     def near(R, base):
         # structured matrix plus noise at rounding level: the input the clean-up helpers exist for
@@ -359,6 +381,12 @@ def gen_fn_step(R, client):
                 args[ai] = SP(a)
                 offtype = True
                 break
+    for ai, a in enumerate(args):
+        if isinstance(a, dict) and a.get("storage") == "sparse" and "explicit_zeros" not in a:
+            x = R.random()
+            if x < 0.4:     # a legal CSR layout that stores its zeros / integer-valued components
+                args = list(args)
+                args[ai] = dict(a, explicit_zeros=True, **({"int_dtype": True} if x < 0.1 else {}))
     st = {"k": "fn", "fn": name, "args": args, "client": client}
     if offtype:
         st["tags"] = {"offtype": "sparse"}
